@@ -5,7 +5,7 @@ from engine.chx import Cell
 M = "harness.iso"
 
 
-REPR = [0, 4, 15, 100, 399]   # year residues mod 400 used for week-shaped inputs in the quick tier
+REPR = [0, 1, 2, 3, 4, 5, 6, 8, 9, 10, 12, 16, 20, 24, 100, 399]   # year residues mod 400 for week-shaped inputs in the quick tier: every (leap, weekday of 1 Jan) class + century + last
 
 
 def cells(tier):
